@@ -22,14 +22,14 @@ ASSUMPTIONS = [
     "unstranded features are compared as position sets (they have no reading direction)",
     "a feature covering the whole circle exactly once has no distinguished start",
 ]
-FLOORS = {"rc_calls": 300, "rc_feature_checks": 500, "law_rcrc": 100, "law_commute": 100, "past_end_inputs": 20}
+FLOORS = {"rc_after_edit": 100, "rc_calls": 300, "rc_feature_checks": 500, "law_rcrc": 100, "law_commute": 100, "past_end_inputs": 20}
 MUST_REACH = ["CircularRecord.reverse_complement"]
 BUDGET_S = {"quick": 600, "thorough": 3600}
 
 
 def cases(tier, seed):
     out = [{"kind": "small", "n": n} for n in range(1, 7)]
-    ngen = 500 if tier == "quick" else 25000
+    ngen = 500 if tier == "quick" else 300000
     out += [{"kind": "gen", "i": i, "seed": seed} for i in range(ngen)]
     return out
 
@@ -113,6 +113,14 @@ def execute(mat, ctx):
         cc = c.reverse_complement()         # judged by the monitor, and:
         ctx.count("law_rcrc")
         _equiv(ctx, r, cc, "rcrc", "reverse_complement() applied twice to a record with prior rotations %s" % run["prior"], n)
+        # same object, edited feature table, asked again (each call is judged against the table it was given)
+        from Bio.SeqFeature import SeqFeature, FeatureLocation
+        r.features.append(SeqFeature(FeatureLocation(0, max(1, n // 2), -1), type="late", qualifiers={"uid": ["late"]}))
+        if len(r.features) > 1:
+            r.features[0].qualifiers["note"] = ["edited"]
+        r.reverse_complement()
+        ctx.count("rc_after_edit")
+        del r.features[-1]
         k = run["k"]
         ctx.count("law_commute")
         _equiv(ctx, (r >> k).reverse_complement(), r.reverse_complement() << k, "commute",
